@@ -1,12 +1,16 @@
 #!/bin/sh
-# One-off build of every harness flavour from files on disk only (offline).
+# One-off build of every harness flavour used by the quick tier, from files on disk only (offline).
 set -e
 cd "$(dirname "$0")"
 export CARGO_NET_OFFLINE=true
 python3 - <<'PY'
-import sys, os
+import sys
 sys.path.insert(0, "lib")
 import engine as E
-for k in ["mon"]:
+import props as P
+for k in ["mon", "bins", "tantivy", "asan"]:
     E.build(k)
+P.build_many(["feat:" + n for n in P.QUICK_FEATURE_SETS])
+E.build_miri()
+print("setup ok")
 PY
